@@ -36,13 +36,13 @@ TARGETS = [
     ("crates/texlang-stdlib/src/expansion.rs", ["texlang-stdlib"], ["C07"]),
     ("crates/texlang/src/vm/serde.rs", ["texlang", "texlang-stdlib"], ["C08"]),
     ("crates/texlang/src/vm/streams.rs", ["texlang", "texlang-stdlib"], ["C19", "C07", "C02"]),
-    ("crates/texlang/src/vm/mod.rs", ["texlang", "texlang-stdlib"], ["C19", "C08", "C09"]),
+    ("crates/texlang/src/vm/mod.rs", ["texlang", "texlang-stdlib"], ["C19", "C08", "C09", "C01"]),
     ("crates/texlang-stdlib/src/input.rs", ["texlang-stdlib"], ["C19"]),
     ("crates/texlang-stdlib/src/endlinechar.rs", ["texlang-stdlib"], ["C03", "C01"]),
     ("crates/texlang-stdlib/src/registers.rs", ["texlang-stdlib"], ["C01", "C09"]),
     ("crates/boxworks-knuthplass/src/lib.rs", ["boxworks-knuthplass", "boxworks-bin"], ["C04", "C12"]),
     ("crates/boxworks-text/src/lib.rs", ["boxworks-text", "boxworks-bin"], ["C12"]),
-    ("crates/boxworks/src/ds.rs", ["boxworks", "boxworks-bin", "boxworks-knuthplass"], ["C15", "C12", "C18"]),
+    ("crates/boxworks/src/ds.rs", ["boxworks", "boxworks-bin", "boxworks-knuthplass"], ["C15", "C12", "C18", "C14"]),
     ("crates/boxworks/src/lang/*.rs", ["boxworks", "boxworks-bin"], ["C18"]),
     ("crates/tfm/src/ligkern/compiler.rs", ["tfm", "tfm-bin"], ["C05", "C11"]),
     ("crates/tfm/src/ligkern/mod.rs", ["tfm", "tfm-bin"], ["C05", "C11"]),
